@@ -827,6 +827,14 @@ def rule_echo(run):
     late = [n for st in after for n in ast.walk(st) if isinstance(n, ast.Assign) and
             any(is_self_attr(t) and t.attr in ('echo_extra_precision', '_echo_extra_precision') for t in n.targets) and
             any(is_self_attr(x, '_sections') for x in ast.walk(n.value))]
+    if not late:
+        # the flag assigned from a local that a loop over the section list computed (the explicit form of any([...])): the
+        # re-evaluation is there; its quantifier is not decided from this shape
+        late_loop = [n for st in after for n in ast.walk(st) if isinstance(n, ast.Assign) and
+                     any(is_self_attr(t) and t.attr in ('echo_extra_precision', '_echo_extra_precision') for t in n.targets) and
+                     any(is_self_attr(x, '_sections') for x in ast.walk(st))]
+        if late_loop:
+            run.ok(key, 're-evaluated after the section loop (statement form): %s' % norm(late_loop[0])[:90], where=rd.where(late_loop[0])); return
     if early and not late:
         m, st = early[0]
         run.violated(key, '%s sets the echo flag from self._sections (`%s`) while read() has only appended the sections seen so far (it runs '
